@@ -607,11 +607,17 @@ def _pymath_call(f, args, trace):
         return -aa if neg else aa
     if f == "fmod":
         b = args[1]
-        q = math.trunc(a.v / b.v)
-        if abs(a.v / b.v - round(a.v / b.v)) < 1e-9 and a.v != 0.0:
+        # the C remainder is exact for the two floats it is given; a - b*trunc(a/b) is not (18 - 10*1.8 = 0 where
+        # fmod(18, 1.8) = 1.7999999999999996): take the value from math.fmod and the slope from a - q*b
+        fv = math.fmod(a.v, b.v)
+        q = round((a.v - fv) / b.v)
+        if a.v != 0.0 and min(abs(fv), abs(abs(b.v) - abs(fv))) <= 1e-9 * abs(b.v) + 64 * EPS * (a.c[0].e + b.c[0].e * abs(q)):
+            # at (or within rounding of) a multiple of the divisor the remainder jumps by |b|
             trace.append(("ambiguous", "fmod at a multiple of the divisor"))
         trace.append(("fmod", q))
-        return a - b * float(q)
+        out = a - b * float(q)
+        out.c[0] = EN(fv, out.c[0].e, out.c[0].u)
+        return out
     raise ValueError("unknown pymath function " + f)
 
 
